@@ -93,6 +93,7 @@ type End struct {
 
 	rdeadline time.Time
 	rtimer    *time.Timer
+	wdeadline time.Time
 }
 
 type memAddr string
@@ -170,6 +171,11 @@ func (e *End) Write(p []byte) (int, error) {
 	if e.out.wclosed {
 		return 0, io.ErrClosedPipe
 	}
+	if !e.wdeadline.IsZero() && !time.Now().Before(e.wdeadline) {
+		// like a kernel socket: a write after the deadline fails at once,
+		// even though the (unbounded) queue would take the octets
+		return 0, timeoutError{}
+	}
 	if len(p) == 0 {
 		return 0, nil
 	}
@@ -221,7 +227,10 @@ func (e *End) LocalAddr() net.Addr  { return memAddr(e.name) }
 func (e *End) RemoteAddr() net.Addr { return memAddr(e.peer.name) }
 
 func (e *End) SetDeadline(t time.Time) error {
-	return e.SetReadDeadline(t)
+	if err := e.SetReadDeadline(t); err != nil {
+		return err
+	}
+	return e.SetWriteDeadline(t)
 }
 
 func (e *End) SetReadDeadline(t time.Time) error {
@@ -246,8 +255,17 @@ func (e *End) SetReadDeadline(t time.Time) error {
 	return nil
 }
 
-// Writes never block (unbounded queue), so a write deadline has no effect.
-func (e *End) SetWriteDeadline(t time.Time) error { return nil }
+// Writes never block (unbounded queue); an expired write deadline makes
+// them fail, as it would on a socket.
+func (e *End) SetWriteDeadline(t time.Time) error {
+	e.hub.mu.Lock()
+	defer e.hub.mu.Unlock()
+	if e.closed {
+		return net.ErrClosed
+	}
+	e.wdeadline = t
+	return nil
+}
 
 // ---- observation (all called with the hub unlocked unless noted) ----
 
